@@ -15,7 +15,7 @@ import (
 // ---------------------------------------------------------------------------
 // engine B: random histories over a larger universe
 
-var namePool = []string{"a", "b c", "é", "x%20y", "q?#", "d+;e", `"'<&>`, ".h", "..x", `a\b`, "%", "t.txt", "Ünï", "a=b&c", "~", "[1]", "n240" + strings.Repeat("w", 236)}
+var namePool = []string{"a", "b c", "é", "x%20y", "q?#", "d+;e", `"'<&>`, ".h", "..x", `a\b`, "%", "t.txt", "Ünï", "a=b&c", "~", "[1]", "n240" + strings.Repeat("w", 236), ".webdav-upload-x", ".webdav-replaced-y"}
 
 func genContent() *rapid.Generator[string] {
 	return rapid.Custom(func(rt *rapid.T) string {
